@@ -3,7 +3,10 @@
 import json, os
 ROOT = os.path.dirname(os.path.abspath(__file__))
 props = [json.loads(l) for l in open(os.path.join(ROOT, "properties.jsonl"))]
-claimed = json.load(open(os.path.join(ROOT, "claims.json")))
+claimed = {}
+cd = os.path.join(ROOT, "claims.d")
+for f in sorted(os.listdir(cd)):
+    if f.endswith(".json"): claimed[f[:-5]] = json.load(open(os.path.join(cd, f)))
 checks, na = [], []
 for p in props:
     pid = p["id"]
